@@ -21,6 +21,11 @@ def DB(focus, q, t, nops=14, big=False, scale=1, shards_q=8, segsize=0):
     return {"cmd": "db", "mode": "api", "args": args, "cases": {"quick": q, "thorough": t}, "shards": {"quick": min(shards_q, q), "thorough": 16}}
 
 
+def DB_SCRIPT(names):
+    """directed histories of the history engine (`--focus script-…`), one fixed-seed case each (corpus)"""
+    return [{"cmd": "db", "mode": "api", "args": ["--focus", n], "cases": {"quick": 1, "thorough": 1}, "shards": {"quick": 1, "thorough": 1}, "fixed_seed": 1, "corpus": True} for n in names]
+
+
 def DB_SCN(names):
     return [{"cmd": "db-scenario", "mode": "api", "args": ["--name", n], "cases": {"quick": 1, "thorough": 1}, "corpus": True} for n in names]
 
@@ -43,8 +48,19 @@ def CRASH(mode, focus, q, t, steps=2, shards_q=4, big=False, nops=8, segsize=0):
 # directed histories (corpus, fixed seed): 8 KiB rollback segments, six fat commits (one segment each), then rollback(5) / prune + rollback-all,
 # every event of every operation; "nested" additionally crashes at every event of every recovery, each probe on a fresh copy of the crashed image (found F16)
 def SCRIPTED(mode):
-    foci = ["script-rollback-multi-segment"] if mode == "nested" else ["script-rollback-multi-segment", "script-prune-then-rollback-all"]
+    foci = ["script-rollback-multi-segment"] if mode == "nested" else ["script-rollback-multi-segment", "script-prune-then-rollback-all", "script-elision-threshold"]
     return [dict(CRASH(mode, f, 1, 1, steps=12, shards_q=1, segsize=8192), fixed_seed=1, corpus=True, shards={"quick": 1, "thorough": 1}, cases={"quick": 1, "thorough": 1}) for f in foci]
+
+# the real FreeList (allocate per index + finish) and the real ProbeSequence / allocate_bucket, driven through nomt::verif_api,
+# against the Lean free-list / probing models (driver mode `alloc`) and harness-side oracles (conservation, placement, encoding)
+ALLOC_FL = {"cmd": "alloc-freelist", "mode": "alloc", "cases": {"quick": 120, "thorough": 3000}, "shards": {"quick": 6, "thorough": 16}}
+ALLOC_PROBE = {"cmd": "alloc-probe", "mode": "alloc", "cases": {"quick": 600, "thorough": 16000}, "shards": {"quick": 4, "thorough": 16}}
+ALLOC_RULE = (" Allocator runs: alloc-freelist builds well-shaped free lists with the real page capacity 1022 (0..3 full pages, head of 0 / 1 / 2 / 1021 / 1022 / random items, "
+              "fragmented shapes, 0..2500 live pages) and drives 6 consecutive syncs each through the REAL FreeList (allocate(i) for every allocation index, then finish(freed)) with allocation / "
+              "freed counts aimed at the page boundaries; every sync is one protocol line and must equal the Lean model (handed-out pages, new frontier, pages written in order, new portions) and "
+              "pass the harness oracles: tracked + live pages partition [1,bump) before and after, allocate hands out only free-or-beyond-frontier pages, no free-list page is written over a page the "
+              "previous state uses (found F18), written pages decode to the new portions. alloc-probe: tables of 1..5000 buckets in 8 fill styles (all empty / tombstones / full with the "
+              "page's own tag / no empty bucket / dense / sparse): hash_raw_page_id, 2n+6 results of ProbeSequence::next and allocate_bucket must equal the Lean probing model and the meta bytes.")
 
 IMG_RUN = {"cmd": "image", "mode": "image", "cases": {"quick": 24, "thorough": 400}, "shards": {"quick": 8, "thorough": 16}}
 # directed replay (corpus): history 18 of image seed 1000 — 1616 fat-valued keys, half of them under a 200-bit common prefix;
@@ -74,7 +90,7 @@ PROPS = {
         ],
         "rule": "cases = random key sets (0..60 keys, clustered prefixes) x a random non-empty set of 1..20 query keys: honest path proofs (sorted by terminal path, identical terminals merged) -> real MultiProof::from_path_proofs -> verify_multi_proof -> find_index_for / confirm_value / confirm_nonexistence / ..._with_index on query keys, keys around every terminal and random keys -> 2 honest in-scope write sets through verify_multi_proof_update, each compared with (a) the Lean mirror line by line, (b) the key-value set, (c) the single-path verifier on the same key / write set, (d) the reference root of the updated set; then 6 mutated multi-proof objects per case (depth +-1 / 256 / 257 / 300 / 2^20 / below the bisection depth / = path length, terminator shorter or longer than its depth, dropped / added / truncated / trailing / flipped / zeroed / swapped siblings, swapped / duplicated / removed / truncated paths, prefix-related terminals replaced or inserted, neighbour sharing the whole prefix, terminal kind / key / value changes, empty proof with and without siblings, wrong root; 1 in 4 doubly mutated), each verified against the true root and, if rejected, against the root it hashes to itself (harness-side, panic-free), accepted ones followed by confirm queries and honest + malformed write sets (swapped, duplicated, random, out-of-scope-but-sorted, reversed, empty); plus malformed from_path_proofs input (duplicate, unordered pair, prefix pair). Every call under catch_unwind. non-trivial & distinct = distinct mutated-object or update lines (hash of the protocol line).",
         "trusted_base": HASH_TB + ["Debug rendering of VerifiedMultiProof is used to read its private depth / sibling-range fields"],
-        "assumptions": ["unproved in Lean, held by this run only: completeness of find_index_for, correctness / panic-freedom of verify_multi_proof_update on accepted proofs, completeness of from_path_proofs; the `aligned` token printed by the driver re-checks theorem T7.1 at run time on every accepted object",
+        "assumptions": ["unproved in Lean, held by this run only: completeness of find_index_for; the `aligned` token printed by the driver re-checks theorem T7.1 at run time on every accepted object",
                         "from_path_proofs is only fed unordered input of length 2 (longer unordered input can make the real loop spin exponentially long)"],
     },
     "C16": {
@@ -89,8 +105,8 @@ PROPS = {
         "runs": [{"cmd": "image-leak", "mode": "image", "cases": {"quick": 1, "thorough": 1}, "corpus": True, "leaks_fail": True},
                  {"cmd": "image-cycles", "mode": "image", "args": ["--cycles", "10", "--keys", "300"], "cases": {"quick": 1, "thorough": 1}, "corpus": True, "leaks_fail": True},
                  {"cmd": "image-cycles", "mode": "image", "args": ["--cycles", "8", "--keys", "2500"], "cases": {"quick": 0, "thorough": 1}, "corpus": True, "leaks_fail": True, "thorough_only": True},
-                 dict(IMG_RUN, leaks_fail=True)],
-        "rule": IMG_RULE + " C19 (accounting): for ln and bbn every page number in [1, bump) must be in use by the decoded state (leaf / overflow / branch) or tracked by the "
+                 dict(IMG_RUN, leaks_fail=True), dict(ALLOC_FL), dict(ALLOC_PROBE)],
+        "rule": IMG_RULE + ALLOC_RULE + " C19 (accounting): for ln and bbn every page number in [1, bump) must be in use by the decoded state (leaf / overflow / branch) or tracked by the "
                 "free list (free-list page or listed free page), and no page may be both; the driver prints ln_leaked / bbn_leaked per snapshot and any non-zero value is reported as "
                 "`C19 leaked pages: …`; hash-table occupancy: the value returned by Nomt::hash_table_utilization().occupied at every snapshot must equal the number of full meta bytes the decoder finds (ht_full), which in turn must equal the number of merkle pages that must be stored (0 for the empty store); frontier: 10 (thorough: 8 x 2500 keys, several free-list pages) identical fill / refill-with-migrating-value-sizes / empty cycles, criterion fixed in advance: ln_bump and bbn_bump read from the meta page after the last cycle must not exceed those after cycle 4.",
         "trusted_base": IMG_TB, "assumptions": IMG_ASSUME,
@@ -131,15 +147,15 @@ PROPS = {
     "C02": {
         "lines": ['root', 'finish', 'overlay', 'reopen', 'rootof', 'buildtrie', 'setkv'],
         "tags": ['C02'],
-        "runs": [DB("kv", 120, 1200, nops=14), DB("kv", 6, 60, nops=16, scale=100, shards_q=6), DB("overlay", 60, 600, nops=14),
+        "runs": DB_SCRIPT(["script-elision-threshold"]) + [DB("kv", 120, 1200, nops=14), DB("kv", 6, 60, nops=16, scale=100, shards_q=6), DB("overlay", 60, 600, nops=14),
                  {"cmd": "core-pp", "mode": "core", "cases": {"quick": 300, "thorough": 6000}, "shards": {"quick": 4, "thorough": 16}}],
         "rule": DB_RULE + " C02: every root reported by the real code (session base, finished session, overlay, Nomt::root, after reopen/rollback) is compared with the Lean specification function nodeAt executed on the model's key-value list (Blake3 implemented in Lean) and with the harness reference trie.",
         "trusted_base": API_TB, "assumptions": API_ASSUME,
     },
     "C05": {
-        "lines": ['prove'],
+        "lines": ['prove', 'pshash', 'psnext', 'psalloc'],
         "tags": ['C05'],
-        "runs": [DB("kv", 120, 1200, nops=14), DB("overlay", 80, 800, nops=14), DB("reopen", 60, 600, nops=14), DB("kv", 4, 40, nops=14, scale=100, shards_q=4)],
+        "runs": DB_SCRIPT(["script-elision-threshold"]) + [DB("kv", 120, 1200, nops=14), DB("overlay", 80, 800, nops=14), DB("reopen", 60, 600, nops=14), DB("kv", 4, 40, nops=14, scale=100, shards_q=4), dict(ALLOC_PROBE)],
         "rule": DB_RULE + " C05: Session::prove for present keys, absent keys diverging from a present key at interesting depths (page boundaries 6k-1..6k+1, just below the terminal, 246..255) and random keys, on plain / overlay sessions, cold caches after reopen; the proof object must equal the Lean proveSpec (terminal + every sibling) and verify + confirm the session's view with the real verifier.",
         "trusted_base": API_TB, "assumptions": API_ASSUME,
     },
@@ -217,8 +233,9 @@ PROPS = {
         "tags": ['C17'],
         "runs": [{"cmd": "placement", "mode": "image", "args": ["--focus", "general", "--nops", "14"], "cases": {"quick": 24, "thorough": 320}, "shards": {"quick": 8, "thorough": 16}},
                  {"cmd": "placement", "mode": "image", "args": ["--focus", "kv", "--nops", "12", "--scale", "40", "--big"], "cases": {"quick": 4, "thorough": 32}, "shards": {"quick": 4, "thorough": 16}},
-                 {"cmd": "placement", "mode": "image", "args": ["--focus", "rollback", "--nops", "14"], "cases": {"quick": 8, "thorough": 96}, "shards": {"quick": 4, "thorough": 16}}],
-        "rule": "cases = generated API histories; before EVERY state-changing operation (session commit, overlay commit, rollback) the directory is copied (pre-image) and the ordered I/O events the operation issues are recorded through the cfg(nomt_verif) hook; the Lean driver decodes the pre-image with the independent decoders (ownership marks of every ln / bbn page, allocation frontiers, file sizes) and evaluates checkPlacement on the real trace: every event before the meta-page write must not overwrite a node / overflow page / free-list page of the previous state, shrink ln / bbn, write or resize the hash table, truncate or unlink a rollback segment. distinct & non-trivial = operations that issued at least one event.",
+                 {"cmd": "placement", "mode": "image", "args": ["--focus", "rollback", "--nops", "14"], "cases": {"quick": 8, "thorough": 96}, "shards": {"quick": 4, "thorough": 16}},
+                 dict(ALLOC_FL), {"cmd": "placement", "mode": "image", "args": ["--focus", "script-freelist-two-pages"], "cases": {"quick": 1, "thorough": 1}, "shards": {"quick": 1, "thorough": 1}, "fixed_seed": 1, "corpus": True, "thorough_only": True}],
+        "rule": ALLOC_RULE.strip() + " Placement runs: cases = generated API histories; before EVERY state-changing operation (session commit, overlay commit, rollback) the directory is copied (pre-image) and the ordered I/O events the operation issues are recorded through the cfg(nomt_verif) hook; the Lean driver decodes the pre-image with the independent decoders (ownership marks of every ln / bbn page, allocation frontiers, file sizes) and evaluates checkPlacement on the real trace: every event before the meta-page write must not overwrite a node / overflow page / free-list page of the previous state, shrink ln / bbn, write or resize the hash table, truncate or unlink a rollback segment. distinct & non-trivial = operations that issued at least one event.",
         "trusted_base": IMG_TB + ["the I/O hook reports every mutating file operation (call sites listed in DESIGN.md §5); events are observed at submission"],
         "assumptions": ["the monitor reads the pre-image through decoders that were themselves validated on every snapshot by C16's run", "worker interleavings are whatever the runs exhibit"],
     },
